@@ -45,6 +45,13 @@ PROFILE_CARRY = S.profile(cond_mandatory_only=True, min_tasks=2, max_tasks=3, ho
                           focus=["ResourceInterrupted", "ResourceInterrupted", "ResourcePeriodicallyInterrupted", "WorkLoad"], objectives=(0, 1), only_objectives=["MinimizeMakespan", "MinimizeFlowtime"],
                           p_optional=15, p_work_amount=10, p_dynamic=0, p_delay=10,
                           exclude=("SameWorkers", "DistinctWorkers", "ResourceNonDelay", "ResourceTasksDistance"))
+# several objectives of one direction (weighted sum, incremental optimiser), some over indicators with declared bounds: the
+# optimum must not depend on the order in which objectives and indicators are declared
+PROFILE_MULTIOBJ = S.profile(cond_mandatory_only=True, min_tasks=2, max_tasks=3, horizon=(3, 6), p_no_horizon=0, p_resources=50, n_workers=(1, 2), p_select=20, p_cumulative=0,
+                             task_constraints=(0, 1), optional_rules=(0, 0), resource_constraints=(0, 0), indicators=(1, 3),
+                             indicator_types=["FromMathExpression", "FromMathExpression", "ResourceUtilization", "Tardiness"], p_indicator_bounds=55, objectives=(2, 3),
+                             objective_direction="max", only_objectives=["MaximizeIndicator", "MaximizeIndicator", "TasksStartLatest", "MaximizeResourceUtilization"],
+                             p_optional=15, p_release=10, p_due=40, p_work_amount=0, p_weight_zero=5)
 PREFIX_PROFILE = S.profile(cond_mandatory_only=True, min_tasks=1, max_tasks=3, p_resources=60, task_constraints=(0, 1), optional_rules=(0, 0), resource_constraints=(0, 1), objectives=(0, 1), p_optional=40)
 NAME_POOL = ["a", "b", "x", "t", "A1", "Task", "task_1", "task_2", "W", "worker", "Ωmega", "tâche", "name with space", "a.b", "x_start", "x_end", "q" * 24,
              "T1", "T2", "T3", "W1", "W2", "K1", "S1", "B1", "c1", "z_busy", "_lead", "n-1", "0", "17", "Selected", "horizon2"]
@@ -155,7 +162,7 @@ def rename(spec, m):
 def permute(spec, perms):
     """perms: {stage: permutation (list of indices)}; constraints keep ForceApply after its members"""
     s = copy.deepcopy(spec)
-    for stage in ("tasks", "workers", "selects", "assign", "buffers", "indicators"):
+    for stage in ("tasks", "workers", "selects", "assign", "buffers", "indicators", "objectives"):
         p = perms.get(stage)
         if p and len(p) == len(s[stage]):
             s[stage] = [s[stage][i] for i in p]
@@ -195,7 +202,7 @@ def cases(draw, prof=None):
         m[kind][old] = cand
         used.add(cand)
     perms = {}
-    for stage in ("tasks", "workers", "selects", "assign", "buffers", "constraints", "indicators"):
+    for stage in ("tasks", "workers", "selects", "assign", "buffers", "constraints", "indicators", "objectives"):
         n = len(spec[stage])
         if n >= 2 and draw(st.integers(0, 99)) < 70:
             perms[stage] = list(draw(st.permutations(list(range(n)))))
@@ -248,9 +255,15 @@ def _delivered_profile(b):
     return out_l, out_t
 
 
+CUT_SHORT = []  # set by optimum(): the last run left its loop on the real-clock time limit or on a z3 'unknown'
+
+
 def optimum(spec, seed):
     h = B.build(spec, seed, solver_kwargs={"optimizer": "incremental"})
-    sol = h.solver.solve()
+    with env.collect_prints() as printed:
+        sol = h.solver.solve()
+        if any(a and isinstance(a[0], str) and ("Max time" in a[0] or ("Reason:" in a[0] and "Unsatisfiable" not in a[0])) for a in printed):
+            CUT_SHORT.append(True)
     if not sol:
         return None
     obj = adapter._get(h.solver, "_objective")
@@ -351,6 +364,7 @@ def prop(ctx, case):
                 n_cross += 1
         if spec["objectives"] and len({ref.objective_kind(o) for o in spec["objectives"]}) == 1:
             try:
+                del CUT_SHORT[:]
                 va, vb = optimum(spec, seed + 2), optimum(twin, seed + 3)
             except Exception as exc:
                 viol("optimisation_raised", repr(exc))
@@ -358,8 +372,12 @@ def prop(ctx, case):
             ctx.evaluation()
             if va is None or vb is None:
                 ctx.inconclusive += 1  # one optimisation gave up (z3 'unknown'): both verdicts were 'sat' above
+            elif va != vb and not CUT_SHORT:
+                # both optimisers announced that they had finished
+                viol("optima_differ", {"original": va, "twin": vb})
+                return
             elif va != vb:
-                # an optimisation may have been cut short (time limit, z3 'unknown'): the difference counts only if the
+                # an optimisation was cut short (real-clock time limit, z3 'unknown'): the difference counts only if the
                 # problem with the worse value definitely admits nothing as good as the other one's value
                 kind = ref.objective_kind(spec["objectives"][0])
                 worse_is_twin = (vb > va) if kind == "minimize" else (vb < va)
@@ -388,6 +406,7 @@ def run_shard(ctx):
     run_hypothesis(ctx, cases(PROFILE_WINDOWS), prop, max_examples=n)
     run_hypothesis(ctx, cases(PROFILE_SORT), prop, max_examples=n // 2)
     run_hypothesis(ctx, cases(PROFILE_CARRY), prop, max_examples=n)
+    run_hypothesis(ctx, cases(PROFILE_MULTIOBJ), prop, max_examples=n)
 
 
 def replay(record):
